@@ -95,8 +95,8 @@ PROPS = {
               "(V3).",
               "equality of the repeated and the retyped execution (relational, behavioural); the "
               "bounds of the recording/push-back buffers are decided under C05 (B1)."),
-    "C10": _p(["R4", "R5", "R6", "R9", "K4", "R11", "R12", "R13"],
-              "the set matcher's own group counter agrees with the number of groups the parser builds, on every compiling pattern up to length 4/5 over ( ) [ ] \\\\ ^ : | * a and on all built-in patterns (R13); a parse error never leaves a compiled prefix, a repetition binds to exactly one character, on every pattern up to length 4 (quick) / 5 (thorough) over the metacharacter alphabet with a lead and a continuation byte (R11); the matching state is set afresh for every start position so a failed attempt cannot make a later one fail or report stale groups (R12); greedy / left-biased priority as a property of the fork instruction (a1 tried recursively, state restored from a copy, then a2) and of each of the four places that emit one (a1 -> the sub-pattern that follows, a2 -> after it / deferred / loop-back), alternation emits the left branch first (R4); the scan starts at the subject start, advances one decoded character and returns the first success (R5); each bracket class name denotes exactly the C-locale predicate's ASCII set (R6); every built-in pattern set needs at most NGRPS/2 groups by the repository's own group-count rule, so no alternative's marks are dropped and the reported index can be the matching one (K4).",
+    "C10": _p(["R4", "R5", "R6", "R9", "K4", "R11", "R12", "R13", "R14"],
+              "under ignore-case a character matches a bracket range exactly when it or its other case lies in the range as written (R14, abstract evaluation of brk_match); an empty alternative stays an alternative (R9); the set matcher's own group counter agrees with the number of groups the parser builds, on every compiling pattern up to length 4/5 over ( ) [ ] \\\\ ^ : | * a and on all built-in patterns (R13); a parse error never leaves a compiled prefix, a repetition binds to exactly one character, on every pattern up to length 4 (quick) / 5 (thorough) over the metacharacter alphabet with a lead and a continuation byte (R11); the matching state is set afresh for every start position so a failed attempt cannot make a later one fail or report stale groups (R12); greedy / left-biased priority as a property of the fork instruction (a1 tried recursively, state restored from a copy, then a2) and of each of the four places that emit one (a1 -> the sub-pattern that follows, a2 -> after it / deferred / loop-back), alternation emits the left branch first (R4); the scan starts at the subject start, advances one decoded character and returns the first success (R5); each bracket class name denotes exactly the C-locale predicate's ASCII set (R6); every built-in pattern set needs at most NGRPS/2 groups by the repository's own group-count rule, so no alternative's marks are dropped and the reported index can be the matching one (K4).",
               "genuineness of matches, capture spans, completeness within the depth limit (behavioural over runtime strings; the proposed depth-limit counter hook is a runtime device and is not used)."),
     "C17": _p(["K1", "K5", "B3", "T4"],
               "the three width/bell range tables are sorted, disjoint and lo <= hi (bisection precondition), the shortcut thresholds in uc_isdw/uc_iszw do not exclude listed characters, find() agrees with the tables at every range boundary by abstract evaluation, widths are 0/1/2 (K1); pos[]/off[] allocations cover their writes (B3).",
